@@ -120,7 +120,8 @@ PROPERTIES = {
             "quick": [B("plain-small-a", "plain", "small-a", 4000, 30), B("plain-small-b", "plain", "small-b", 1500, 10), B("keysweep-small-a", "plain", "small-a", 100000, 25, mode="keysweep"), B("tsan-small-a", "tsan", "small-a", 600, 20),
                       B("plain-shipped", "plain", "shipped", 64, 40, workers=8, gate=4)],
             "thorough": [B("plain-small-a", "plain", "small-a", 150000, 300), B("plain-small-b", "plain", "small-b", 60000, 120), B("keysweep-small-a", "plain", "small-a", 1000000, 300, mode="keysweep"), B("tsan-small-a", "tsan", "small-a", 20000, 240),
-                         B("plain-shipped", "plain", "shipped", 2000, 420, workers=8, gate=8), B("contract-audit", "assert", "small-a", 3000, 40)],
+                         B("plain-shipped", "plain", "shipped", 2000, 420, workers=8, gate=8), B("full-dataset-shipped", "plain", "shipped", 3, 1500, workers=3, mode="fullshipped", gate=0),
+                         B("contract-audit", "assert", "small-a", 3000, 40)],
         },
     },
     "C11": {
